@@ -4,7 +4,7 @@
 # without, fails with); runs the check against the patched tree; cleans up.
 D=$(cd "$1" && pwd); P=$2; CONF=$3
 WT=/tmp/wt-seed-$$
-git -C /repo worktree add -q --detach $WT HEAD || exit 2
+git -C /repo worktree add -q --detach $WT ${BASE:-HEAD} || exit 2
 if [ -n "$CONF" ]; then
   (cd $D && sh run.sh $WT >/tmp/seed-demo-$$.log 2>&1); echo "demo on HEAD: exit $?"
 fi
